@@ -88,7 +88,24 @@ func runIoCase(c *ioCase) (impl, pred string) {
 		cfg.UnixSocketConfig = &plugin.UnixSocketConfig{TempDir: base}
 		cfg.RunnerFunc = func(l hclog.Logger, cm *exec.Cmd, tmpDir string) (runner.Runner, error) {
 			cmd.Env = append(cmd.Env, cm.Env...)
-			return newLcProcRunner(cmd)
+			pr, err := newLcProcRunner(cmd)
+			if err != nil {
+				return nil, err
+			}
+			// a runner with a non-identity address translation: the plugin sees the socket directory under another name
+			nsRoot, err := os.MkdirTemp(base, "ns")
+			if err != nil {
+				return nil, err
+			}
+			if nsRoot, err = filepath.EvalSymlinks(nsRoot); err != nil {
+				return nil, err
+			}
+			entry, err := pr.namespaced(tmpDir, nsRoot)
+			if err != nil {
+				return nil, err
+			}
+			cmd.Env = append(cmd.Env, entry) // the last value of a variable wins
+			return pr, nil
 		}
 	case "reattach":
 		launcher = plugin.NewClient(&plugin.ClientConfig{
@@ -223,7 +240,8 @@ func pluginLegacy(args []string) {
 	if os.Getenv(cfg.CookieKey) != cfg.CookieVal {
 		os.Exit(1)
 	}
-	dir, err := os.MkdirTemp("", "legacy")
+	// like go-plugin's own listener: in the directory the host's runner names, when it names one
+	dir, err := os.MkdirTemp(os.Getenv(plugin.EnvUnixSocketDir), "legacy")
 	if err != nil {
 		fmt.Fprintln(os.Stderr, "gpv plugin legacy:", err)
 		os.Exit(2)
@@ -305,6 +323,10 @@ func init() {
 		for i, c := range cases {
 			o.emit(c.line(), impls[i], preds[i])
 			hist[impls[i]]++
+		}
+		for _, mux := range []bool{false, true} {
+			impl, pred := runBigBrokered(mux)
+			o.emit("!C14.bigbrokered mux="+b01(mux), impl, pred)
 		}
 		o.note("C14: %d of %d matrix cells; verdicts %v", len(cases), len(all), hist)
 	})
